@@ -312,6 +312,10 @@ def gen(rng, size='small', focus=None):
                 g0 = add(dict(kind='gate', decider=rng.choice([[2, 8], [3, 8], [2, 4]]), up=[]))
                 members.append(g0)
             first = dict(kind=rng.choice(['processor', 'handler']), cycle=cyc(), up=[g0] if gate_first else [])
+            buffer_first = not gate_first and rng.random() < 0.25
+            if buffer_first:
+                # the shared device is a buffer: on a re-entrant route the part it hands over comes straight back into it, during the hand-over
+                first = dict(kind='buffer', min_delay=rng.choice([4, 4, 8]), capacity=rng.choice([2, 3, None]), up=[])      # (a positive delay: see DESIGN 0.6, round 12)
             if gate_first and first['kind'] == 'processor':
                 first['on_finish'] = [['part_set_quality', rng.choice([0, 4, 8, 16])]]
             m1 = add(first)
@@ -319,7 +323,7 @@ def gen(rng, size='small', focus=None):
             if first['kind'] == 'processor':
                 processors.append(m1)
             last_member = m1
-            nested = rng.random() < 0.5
+            nested = rng.random() < 0.5 and not buffer_first
             if nested:
                 # a nested group: an inner group of one device, entered from m1 through a path that is itself a member of the outer group
                 inner = dict(kind=rng.choice(['processor', 'handler']), cycle=cyc(), up=[])
@@ -330,7 +334,7 @@ def gen(rng, size='small', focus=None):
                 p_in = add(dict(kind='path', gid=2, up=[m1]))
                 members.append(p_in)
                 last_member = p_in
-            if rng.random() < 0.5:
+            if rng.random() < 0.5 and not buffer_first:
                 second = dict(kind=rng.choice(['processor', 'handler', 'buffer']), up=[last_member])
                 if second['kind'] == 'buffer':
                     second.update(min_delay=rng.choice([0, 4, 8]), capacity=rng.choice([1, 2, None]))
@@ -402,6 +406,10 @@ def gen(rng, size='small', focus=None):
                     e['dup_shutdown'] = True      # the very same callback object is registered a second time
                 if rng.random() < 0.2:
                     e['on_restore'] = [['log', 3]]
+                    if rng.random() < 0.5:
+                        e['on_restore'] = [['log', 3], ['log', 13], ['log', 23]][:rng.choice([2, 3])]
+                    if rng.random() < 0.4:
+                        e['dup_restore'] = True
             if k in ('handler', 'processor') and rng.random() < 0.2:
                 e['on_receive'] = [rng.choice([['set_cycle', cyc()], ['offset_next', rng.choice([-8, -4, 4, 8])], ['log', 0],
                                                ['part_set_quality', rng.choice([0, 2, 16])], ['part_add_value', 8 * rng.choice([-3, 2, 5])]])]
@@ -419,7 +427,7 @@ def gen(rng, size='small', focus=None):
                 buffers.append(i)
         prev = cur
         stages.append(list(cur))
-    if in_group_done and rng.random() < (0.7 if any(e['kind'] == 'gate' and e.get('up') == [] for e in ents) else 0.35):
+    if in_group_done and rng.random() < (0.7 if any(e['kind'] in ('gate', 'buffer') and e.get('up') == [] for e in ents) else 0.35):
         # re-entrant use: the line goes through the shared group a second time, through one more path
         p = add(dict(kind='path', gid=1, up=list(prev)))
         blockable.append(p)
